@@ -71,9 +71,10 @@ def isCall1 : Term → Bool
   | .app "call" (.cons _ .nil) => true
   | _ => false
 
-/-- the control constructs as goals: `call(G)`, `(C -> T ; E)`, `(C -> T)` -/
+/-- the control constructs as goals: `call(G)`, `(C -> T ; E)`, `(C -> T)`, `once(G)` -/
 def ctlGoal : Term → Bool
   | .app "call" (.cons _ .nil) => true
+  | .app "once" (.cons _ .nil) => true
   | .app ";" (.cons (.app "->" (.cons _ (.cons _ .nil))) (.cons _ .nil)) => true
   | .app "->" (.cons _ (.cons _ .nil)) => true
   | _ => false
@@ -132,7 +133,7 @@ theorem bodyS_false (b : Term) : bodyS false b = bodyOK b := by
 theorem clauseS_false (c : Term) : clauseS false c = clauseOK c := by simp [clauseS, clauseOK, bodyS_false]
 /-- **the fragment (stage 3)**: stage 2 + the control constructs `ctlGoal` as goals of clause bodies,
     of the query and of the goals that are called: `call/1` (also as a variable in goal position),
-    if-then-else, if-then -/
+    if-then-else, if-then, `once/1` -/
 abbrev CtlFrag (prog : List Term) (query : Term) : Prop := FragS true prog query
 /-- (the name under which stage 3a was delivered) -/
 abbrev CallFrag (prog : List Term) (query : Term) : Prop := FragS true prog query
@@ -362,11 +363,13 @@ inductive Ctl (g : Term) : Prop
   | call (x : Term) : g = .app "call" (.cons x .nil) → Ctl g
   | ite (c t e : Term) : g = .app ";" (.cons (.app "->" (.cons c (.cons t .nil))) (.cons e .nil)) → Ctl g
   | ifthen (c t : Term) : g = .app "->" (.cons c (.cons t .nil)) → Ctl g
+  | once (x : Term) : g = .app "once" (.cons x .nil) → Ctl g
 
 theorem ctlGoal_shape {g : Term} (h : ctlGoal g = true) : Ctl g := by
   unfold ctlGoal at h
   split at h
   · exact .call _ rfl
+  · exact .once _ rfl
   · exact .ite _ _ _ rfl
   · exact .ifthen _ _ rfl
   · cases h
@@ -376,6 +379,7 @@ theorem ctlGoal_app {g : Term} (h : ctlGoal g = true) : ∃ f a as, g = .app f (
   | call x hx => exact ⟨_, _, _, hx⟩
   | ite c t e hx => exact ⟨_, _, _, hx⟩
   | ifthen c t hx => exact ⟨_, _, _, hx⟩
+  | once x hx => exact ⟨_, _, _, hx⟩
 
 /-- a `stepGoal`: a Horn goal or (with control constructs) a control construct -/
 theorem stepGoal_cases {s : Bool} {g : Term} (h : stepGoal s g = true) :
@@ -433,6 +437,7 @@ theorem altBodies_toRep {s : Bool} (b : Term) (h : bodyS s b = true) : altBodies
                     simp only [Term.app.injEq, Args.cons.injEq, true_and, and_true] at hx'
                     exact ⟨c, t, hx'.1⟩
                   | ifthen c t hx' => simp at hx'
+                  | once x' hx' => simp at hx'
               obtain ⟨c, t, rfl⟩ := hx
               simp only [toReps, RepList.cons.injEq] at hargs
               obtain ⟨ha, hb, _⟩ := hargs
